@@ -52,6 +52,13 @@ func GoEnv() []string {
 
 // Load loads ./... of repo with full syntax and types for all dependencies.
 func Load(repo string) (*Program, error) {
+	// go/packages resolves the go command through this process's PATH
+	for _, kv := range GoEnv() {
+		if k, v, ok := strings.Cut(kv, "="); ok && (k == "PATH" || strings.HasPrefix(k, "GO") || k == "CGO_ENABLED") {
+			os.Setenv(k, v)
+		}
+	}
+	os.Unsetenv("GOROOT")
 	fset := token.NewFileSet()
 	cfg := &packages.Config{
 		Mode:  packages.LoadAllSyntax,
